@@ -44,6 +44,8 @@ type Loc struct {
 	Root  types.Type // type stored in the cell (before Path)
 	Path  []pathElem
 	Typ   types.Type // type of the designated location (after Path)
+	Struct types.Type // lField: the struct type the field belongs to
+	Field  string
 }
 
 // State: versions of every mutable thing on the current path.
